@@ -34,15 +34,16 @@ def damage(sig, mode, alphabet="0123456789abcdef"):
 
 
 class Req:
-    def __init__(self, method, raw_path, raw_query, headers, body=b"", stream=False, frames=None):
+    def __init__(self, method, raw_path, raw_query, headers, body=b"", stream=False, frames=None, terr=False):
         self.method, self.raw_path, self.raw_query, self.headers, self.body, self.stream, self.frames = method, raw_path, raw_query, list(headers), body, stream, frames
+        self.terr = terr          # the transport fails after the last frame
 
     def uri(self):
         return self.raw_path + ("?" + self.raw_query if self.raw_query is not None else "")
 
     def wire(self):
         if self.frames is not None:
-            jb = dict(kind="stream", frames=[f.hex() for f in self.frames], transport_error=False)
+            jb = dict(kind="stream", frames=[f.hex() for f in self.frames], transport_error=bool(self.terr))
         elif not self.body:
             jb = None
         elif self.stream:
@@ -55,7 +56,7 @@ class Req:
         hs = "[%s]" % ";".join("(%s,%s)" % (coq_bytes(n.lower().encode()), coq_bytes(v.encode("latin1") if isinstance(v, str) else v)) for n, v in self.headers)
         q = "None" if self.raw_query is None else "(Some %s)" % coq_bytes(self.raw_query.encode())
         if self.frames is not None:
-            body = "(BStream [%s] false)" % ";".join(coq_bytes(f) for f in self.frames)
+            body = "(BStream [%s] %s)" % (";".join(coq_bytes(f) for f in self.frames), "true" if self.terr else "false")
         elif self.stream and self.body:
             body = "(BStream [%s] false)" % ";".join(coq_bytes(self.body[i:i + 41]) for i in range(0, len(self.body), 41))
         else:
